@@ -393,6 +393,8 @@ func C01(c *Ctx) {
 	seekGapGroup(c, "K2.seek-continues-into-next-block")
 	versionAccumulatorGroup(c, "K2.version-accumulator-orderings")
 	newestAcrossSourcesGroup(c, "K10.newest-version-across-sources")
+	c.Rule("K5.empty-value-is-a-value", "Txn.Get decides found-ness by the lookup error and the meta/expiry bits, never by `Value == nil` (an empty value read back from an SST is a nil slice)")
+	txnGetFoundnessRule(c, "K5.empty-value-is-a-value")
 	levelDisjointGroup(c, "K2.level-tables-disjoint")
 	const r6 = "K2.delete-and-expiry-semantics"
 	deleteSemanticsGroup(c, r6)
